@@ -518,6 +518,8 @@ fn run_one(ls: &mut Linters, it: &Item, out: &mut Buf) {
             }
         }
         out.hyp("loop_threads_tree", "blocking", &tf == cur, json!({"input": input, "batch": "end"}));
+        // the final tree too must have unique ids (the next fix run, e.g. in the LSP, starts from it)
+        out.hyp("ids_unique", "blocking", ids_unique(&tf), json!({"input": input, "what": "ids_unique of the final tree"}));
     }
     if it.emit_cases {
         for (k, b) in rec.batches.iter().enumerate() {
@@ -750,7 +752,8 @@ pub const CFG_PROBES: &[(&str, &str, &str)] = &[
     // select clause); LT10 then took the comment for the SELECT keyword and moved `as struct` before `select`
     ("bigquery", "default", "select as struct '1' as bb, 2 as aa; select distinct as struct '1' as bb, 2 as aa; -- Example of explicitly building a struct in a select clause.\n"),
     // LT08 inserted the same newline segment twice (duplicate id)
-    ("ansi", "default", "WITH a AS (SELECT 1) SELECT * FROM a\n"),
+    ("ansi", "default", "WITH a AS (SELECT 1), b AS (SELECT 2) SELECT * FROM a\n"),
+    ("ansi", "default", "WITH a AS (\n    SELECT 1\n), b AS (\n    SELECT 2\n)\n\nSELECT * FROM a\n"),
     // doubled unary operator
     ("ansi", "default", "SELECT 8 | ~ ~ ~4, - - 1, a - -1\n"),
     ("sparksql", "maxlen40", "SELECT /*+ COALESCE(3) */ a, b, c FROM t; SELECT /*+ REPARTITION(3) */ a, b, c FROM t; -- multiple partitioning hints\nSELECT /*+ REBALANCE */ a, b, c FROM t;\n"),
